@@ -1,5 +1,5 @@
 import Model.Json
-import Generated.GoCode
+import Generated.GoObject
 
 /-
   Helper lemmas for Props/Gen17.lean: the instantiations of `getPrimitive` in the generated code,
